@@ -763,6 +763,11 @@ pub mod verif_hooks {
         DataBuf { bufs: chunks.into(), remaining }
     }
 
+    /// `DataBuf::try_push`.
+    pub fn data_buf_try_push(d: &mut DataBuf, buf: Bytes, max_size: usize) -> Result<(), Bytes> {
+        d.try_push(buf, max_size)
+    }
+
     /// `remaining` counter of a data buffer (as reported through the `Buf` API).
     pub fn data_buf_remaining(d: &DataBuf) -> usize {
         d.remaining
